@@ -287,6 +287,8 @@ pub enum TamperKind {
     Append,
     Truncate,
     Remove,
+    /// the first line ending of the file becomes the other one (LF <-> CRLF)
+    CrlfFirst,
 }
 
 /// One step of a history.
@@ -312,6 +314,11 @@ pub enum Op {
     },
     /// set every mtime in the tree to the sentinel
     Sentinel,
+    /// set the mtime of one path to the sentinel plus `days` (may be negative)
+    Touch {
+        path: String,
+        days: i64,
+    },
     /// remove whatever is at the entry's path and plant the entry (environment fault)
     Plant { entry: Entry },
     /// remember the current tree content
